@@ -43,13 +43,16 @@ struct Cfg {
 //  A<k>:<p> define a new message in the free slot k with poll priority p (CSV line, replace=false)
 //  X<k>     MessageMap::remove(m_k)
 //  L        reload: MessageMap::clear() + read the initial definitions again
+//  C        ANOTHER MessageMap of the process is cleared and gets one definition, as MainLoop does with
+//           m_newlyDefinedMessages on every "read -def" / "write -def" (the poll clock is process-global)
+//  Z        that other MessageMap is destroyed and created anew
 struct Op {
   char k;
   int slot;
   int prio;
   string str() const {
     char b[16];
-    if (k == 'G' || k == 'L') snprintf(b, sizeof(b), "%c", k);
+    if (k == 'G' || k == 'L' || k == 'C' || k == 'Z') snprintf(b, sizeof(b), "%c", k);
     else if (k == 'F' || k == 'X') snprintf(b, sizeof(b), "%c%d", k, slot);
     else snprintf(b, sizeof(b), "%c%d:%d", k, slot, prio);
     return b;
@@ -75,7 +78,7 @@ inline bool parseOps(const string& s, vector<Op>* out) {
     pos = e + 1;
     if (t.empty()) continue;
     Op o{t[0], 0, 0};
-    if (o.k == 'G' || o.k == 'L') {
+    if (o.k == 'G' || o.k == 'L' || o.k == 'C' || o.k == 'Z') {
       if (t.size() != 1) return false;
     } else if (o.k == 'F' || o.k == 'X') {
       if (t.size() != 2) return false;
@@ -113,11 +116,14 @@ class World {
   explicit World(const Cfg& cfg) : m_cfg(cfg) {
     m_map = new MessageMap(false, "", false);
     m_map->setResolver(&m_resolver);
+    m_otherMap = new MessageMap(true, "", false);  // like MainLoop::m_newlyDefinedMessages; never polled
+    m_otherMap->setResolver(&m_resolver);
     for (int k = 0; k < MAXSLOT; k++) m_slot[k] = nullptr;
   }
   ~World() {
     delete m_map;
     delete m_probeMap;
+    delete m_otherMap;
   }
 
   static string defLine(int k, int prio) {
@@ -165,7 +171,7 @@ class World {
     return v;
   }
   bool enabled(const Op& o) const {
-    if (o.k == 'G' || o.k == 'L') return true;
+    if (o.k == 'G' || o.k == 'L' || o.k == 'C' || o.k == 'Z') return true;
     if (o.slot >= m_cfg.n) return false;
     SlotView v = view(o.slot);
     if (o.k == 'A') return !v.present && o.prio > 0;
@@ -205,6 +211,21 @@ class World {
       m_map->remove(m_slot[o.slot]);
       m_slot[o.slot] = nullptr;
       if (log) { snprintf(b, sizeof(b), "%s  MessageMap::remove(m%d)\n", o.str().c_str(), o.slot); *log += b; }
+      break;
+    case 'C': {
+      m_otherMap->clear();
+      std::istringstream in("#\nr3,c,tmp,,,08,b509,0dfe00,,,UCH\n");
+      string err;
+      ebusd::result_t r = m_otherMap->readFromStream(&in, "temporary", 0, false, nullptr, &err, false, nullptr, nullptr);
+      if (log) { snprintf(b, sizeof(b), "C  other MessageMap: clear() + read one definition -> %s\n", r == ebusd::RESULT_OK ? "ok" : "error"); *log += b; }
+      if (r != ebusd::RESULT_OK) return false;
+      break;
+    }
+    case 'Z':
+      delete m_otherMap;
+      m_otherMap = new MessageMap(true, "", false);
+      m_otherMap->setResolver(&m_resolver);
+      if (log) *log += "Z  other MessageMap destroyed and created anew\n";
       break;
     case 'L': {
       m_map->clear();
@@ -317,6 +338,7 @@ class World {
   Message* m_slot[MAXSLOT];
   NullResolver m_resolver;
   MessageMap* m_probeMap = nullptr;
+  MessageMap* m_otherMap = nullptr;
   Message* m_probe = nullptr;
 };
 
